@@ -129,9 +129,10 @@ class Runner:
                     # if it does the same alone in a fresh process; otherwise its fresh result counts and the event is
                     # reported in the evidence as unattributed.
                     confirmed = True
-                    # once two such events have been confirmed the next ones are taken at face value: re-running every case
-                    # of a tree that hangs would multiply the wall-clock budget
-                    rerun = [job] if agg["extra"].get("confirmed_worker_stalls_or_deaths", 0) < 2 else []
+                    # once two stalls have been confirmed the next ones are taken at face value: re-running every case of a tree
+                    # that hangs would multiply the wall-clock budget.  A death is always re-run (it costs one case): the listed
+                    # dependency crashes are confirmed deaths too, and must not use up the allowance of the others
+                    rerun = [job] if status != "timeout" or agg["extra"].get("confirmed_worker_stalls", 0) < 2 else []
                     for job2, st2, pl2 in run_pool(self._job, rerun, 1, self.case_timeout, None, self.rlimit_as, lambda wid: self._init_worker(10000)):
                         if st2 == "ok":
                             confirmed = False
@@ -148,6 +149,8 @@ class Runner:
                     if not confirmed:
                         continue
                     agg["extra"]["confirmed_worker_stalls_or_deaths"] = agg["extra"].get("confirmed_worker_stalls_or_deaths", 0) + 1
+                    if status == "timeout":
+                        agg["extra"]["confirmed_worker_stalls"] = agg["extra"].get("confirmed_worker_stalls", 0) + 1
                     case = self.mod.gen_case(Rng(self.seed, self.prop, i), i, self.tier)
                     oracle = "wall_timeout_backstop" if status == "timeout" else "interpreter_died"
                     fp = {"oracle": oracle, "site": "case"}
